@@ -84,6 +84,17 @@ class Monitor:
             mon.after_holdout(self_, snap, r)
             return r
 
+        o_init = Featurizer.__init__
+
+        def __init__(self_, features, fixed_effects, *a, **kw):
+            # what the USER asked for (the statement speaks of the levels the user selected), kept apart from whatever
+            # the constructor derives from it
+            import copy as _copy
+
+            self_._verif_requested = _copy.deepcopy(fixed_effects)
+            o_init(self_, features, fixed_effects, *a, **kw)
+
+        p.set(Featurizer, "__init__", __init__)
         p.set(Featurizer, "prepare_data", prepare_data)
         p.set(Featurizer, "filter_to_active_features", filter_to_active_features)
         p.set(Featurizer, "generate_holdout_data", generate_holdout_data)
@@ -98,11 +109,25 @@ class Monitor:
             self.V("prepare/columns-not-complete-features", f"returned columns {cols[:8]} != complete_features")
         self.check_order(cols, "prepare")
         fes = list(fz.fixed_effect_cols)
+        req = getattr(fz, "_verif_requested", None)
+        if req is not None:
+            self.count("requests_seen")
+            want_cols = list(req) if not isinstance(req, dict) else list(req.keys())
+            if sorted(want_cols) != sorted(fes):
+                self.V("prepare/effects-differ-from-request", f"fixed effects used {fes}, requested {want_cols}")
         fit_mask = ((df["reporting"] == 1) & (df["unit_category"] == "expected")).to_numpy() if fes or True else None
         st["fit_mask"] = fit_mask
         unseen_any = single_any = False
         for fe in fes:
             params = fz.fixed_effect_params[fe]
+            if isinstance(req, dict) and fe in req:
+                asked = ["all"] if req[fe] == "all" else list(req[fe])
+                if sorted(map(str, asked)) != sorted(map(str, params)):
+                    self.V("prepare/selection-differs-from-request", f"effect {fe}: levels {params} used, the request "
+                           f"says {asked} (request {req})")
+                params = asked
+            elif isinstance(req, (list, tuple)) and fe in req:
+                params = ["all"]
             raw = df[fe]
             if "all" in params:
                 lev = raw.astype(object).where(raw.notna(), None)
